@@ -14,6 +14,7 @@ import (
 	"github.com/cilium/statedb"
 	"github.com/cilium/statedb/index"
 	"github.com/cilium/statedb/lpm"
+	"github.com/cilium/statedb/part"
 
 	"verifharness/vkit"
 )
@@ -430,6 +431,38 @@ func TestVerif_Encoders(t *testing.T) {
 				fail("parser-out-of-domain/"+ps.name, "%s(%q) is outside the domain but was accepted with key %x (the key of another value)", ps.name, v.String(), k)
 			}
 			tick()
+		}
+	}
+	// index.Set: the keys of a part.Set's elements (fixed-width integer element types): different elements, different keys
+	hostile := []int32{math.MinInt32, -65536, -2, -1, 0, 1, 0x7f, 0x80, 0x7ff, 0x800, 0xd7ff, 0xd800, 0xdfff, 0xe000, 0xfffd, 0xffff, 0x10000, 0x10ffff, 0x110000, math.MaxInt32}
+	setKeys := func(name string, n int, ks index.KeySet) {
+		seen := map[string]bool{}
+		ks.Foreach(func(k index.Key) {
+			seen[string(k)] = true
+		})
+		if len(seen) != n {
+			fail("set-keys/"+name, "index.Set over a part.Set[%s] of %d elements gives %d distinct keys", name, n, len(seen))
+		}
+		tick()
+	}
+	setKeys("int32", len(hostile), index.Set(part.NewSet(hostile...)))
+	{
+		var rs []rune
+		var i64 []int64
+		var u32 []uint32
+		var is []int
+		for _, v := range hostile {
+			rs = append(rs, rune(v))
+			i64 = append(i64, int64(v)<<20)
+			u32 = append(u32, uint32(v))
+			is = append(is, int(v)<<31)
+		}
+		setKeys("rune", len(rs), index.Set(part.NewSet(rs...)))
+		setKeys("int64", len(i64), index.Set(part.NewSet(i64...)))
+		setKeys("uint32", len(u32), index.Set(part.NewSet(u32...)))
+		setKeys("int", len(is), index.Set(part.NewSet(is...)))
+		for _, v := range hostile {
+			setKeys("int32", 1, index.Set(part.NewSet(v)))
 		}
 	}
 	for _, c := range []struct {
